@@ -144,7 +144,7 @@ def judge(recs, name, pid):
     ok = [r for r in recs if "loaderror" not in r and "error" not in r]
     err = [r for r in recs if "loaderror" in r or "error" in r]
     slim = [{"id": r["id"], "magic": r["magic"], "ver": r["ver"], "buf": r["buf"], "tok": r["tok"], "consumed": r["consumed"],
-             "strict": r["strict"], "free": r.get("free", 0), "cmp": r.get("cmp", 0)} for r in ok]
+             "strict": r["strict"], "free": r.get("free", 0), "cmp": r.get("cmp", 0), "writer": r.get("writer", 0)} for r in ok]
     rej, stats = lib.judge("MarshalTrace", "MarshalTrace", slim, name=name + "-" + pid, timeout=3000)
     rej += host_float_checks(stats.get("extra", []), ok)
     return ok, err, rej, stats
